@@ -109,9 +109,9 @@ Proof.
   repeat split; auto; try (apply N.eqb_neq; lia); try (apply N.leb_gt; lia).
 Qed.
 
-Lemma unquote_body_safe body : forall fuel acc rest,
+Lemma unquote_body_safe json body : forall fuel acc rest,
   safe_str body = true -> (String.length body < fuel)%nat ->
-  unquote_body fuel (body +++ String q rest) acc = Some (srev (rev_app body acc), rest).
+  unquote_body json fuel (body +++ String q rest) acc = Some (srev (rev_app body acc), rest).
 Proof.
   induction body as [|a r IH]; intros fuel acc rest S L.
   - destruct fuel; [simpl in L; lia|]. simpl. unfold srev. reflexivity.
@@ -127,8 +127,8 @@ Proof. fold (srev body). apply srev_involutive. Qed.
 Lemma unquote_dq_safe body :
   safe_str body = true -> unquote_dq (String q (body +++ String q "")) = Some body.
 Proof.
-  intro S. unfold unquote_dq. change (Ascii.eqb q """"%char) with true. cbv iota.
-  rewrite (unquote_body_safe body _ "" ""); [|exact S|].
+  intro S. unfold unquote_dq, unquote_gen. change (Ascii.eqb q """"%char) with true. cbv iota.
+  rewrite (unquote_body_safe true body _ "" ""); [|exact S|].
   - rewrite srev_rev_app_nil. reflexivity.
   - clear. induction body as [|a r IH]; simpl; [lia|]. simpl in IH. lia.
 Qed.
